@@ -165,8 +165,9 @@ def forms_for(typ, syn):
 
 
 def alias_check(ctx, C, cfg, u, g, case):
-    """The resolved tables belong to the Config object: none of them may BE a built-in table or a dictionary of the caller (whoever
-    tunes cfg.options[...] in place - the repository's own tests do - would otherwise rewrite the defaults of the process)."""
+    """The resolved tables belong to the Config object: none of them may BE a built-in table (whoever tunes cfg.options[...] in place -
+    the repository's own tests do - would otherwise rewrite the defaults of the process: a built-in table modified through merging).
+    Sharing a dictionary with the CALLER is not judged: the caller's own writes to its own object are its business."""
     ctx.mon('oracle:resolved-tables-are-copies')
     sources = []
     sc = getattr(C, 'SYNTAX_CONFIG', {}) or {}
@@ -174,9 +175,6 @@ def alias_check(ctx, C, cfg, u, g, case):
         sources.append(('DEFAULT_CONFIG[%s]' % kind, C.DEFAULT_CONFIG.get(kind)))
         for name, sect in sc.items():
             sources.append(('SYNTAX_CONFIG[%s][%s]' % (name, kind), sect.get(kind)))
-        sources.append(('call config[%s]' % kind, u.get(kind)))
-        for name, sect in g.items():
-            sources.append(('global[%s][%s]' % (name, kind), sect.get(kind) if isinstance(sect, dict) else None))
     sources.append(('DEFAULT_OPTIONS', C.DEFAULT_OPTIONS))
     for kind in ('options', 'snippets', 'variables'):
         tbl = getattr(cfg, kind)
